@@ -349,7 +349,7 @@ theorem opMove_ginv (hH : IdxHyp S V vOk) (hR : RefWF S) (hv32 : vOk &&& 0xFFFFF
     (pos? : Option Nat) (hg : GInv S vOk w) (hgd : MoveGuard S w p x) : GInv S vOk (opMove S V w p x pos?).1 := by
   have hw : WInv S vOk w := hg.2.1.1.1
   rcases opMove_cases S V w p x pos? with h0 | ⟨k, cx, cp, ver, lo, hi, sph, spk, q, cur, hr, hsp, hq, hlen, hcur, he⟩ |
-    ⟨k, cx, cp, ver, lo, hi, sph, spk, hr, hsp, hany, ⟨hf, he⟩ | ⟨hf, he⟩⟩
+    ⟨k, cx, cp, ver, lo, hi, sph, spk, hr, hsp, hany, hf, he⟩
   · rw [h0]; exact hg
   · have hname : (lastOf cx).1.name ≠ S.nmShortName := by
       unfold MoveGuard at hgd
@@ -357,7 +357,6 @@ theorem opMove_ginv (hH : IdxHyp S V vOk) (hR : RefWF S) (hv32 : vOk &&& 0xFFFFF
       simp only [hr.par, if_pos hsp] at hgd
       exact hgd
     exact opMove_pos_ginv' S V vOk hH w p x pos? hg k cx cp ver lo hi sph spk q cur hr hq hcur he hname
-  · exact absurd ⟨k, cx, cp, hr.locx, hr.locp, (mvName_fail S _ _ _ _).mp hf⟩ (nameFail_impossible S vOk w hw p x)
   · obtain ⟨hnamed, hnf⟩ : itemName S (lastOf cx).1 (lastOf cx).2 ≠ none ∧ noFiles (lastOf cx).2 = true := by
       unfold MoveGuard at hgd
       rw [hr.locx] at hgd
@@ -742,7 +741,7 @@ theorem opMove_sep (hH : IdxHyp S V vOk) (hR : RefWF S) (hv32 : vOk &&& 0xFFFFFF
   have hw : WInv S vOk w := hg.2.1.1.1
   have hw' : WInv S vOk (opMove S V w p x pos?).1 := (opMove_ginv S V vOk hH hR hv32 w p x pos? hg hgd).2.1.1.1
   rcases opMove_cases S V w p x pos? with h0 | ⟨k, cx, cp, ver, lo, hi, sph, spk, q, cur, hr, hsp, hq, hlen, hcur, he⟩ |
-    ⟨k, cx, cp, ver, lo, hi, sph, spk, hr, hsp, hany, ⟨hf, he⟩ | ⟨hf, he⟩⟩
+    ⟨k, cx, cp, ver, lo, hi, sph, spk, hr, hsp, hany, hf, he⟩
   · rw [h0]; exact hs
   · rw [he] at hw' ⊢
     obtain ⟨m, hm1, hm2, _, _⟩ := locate_chain w p k cp hr.locp
@@ -755,7 +754,6 @@ theorem opMove_sep (hH : IdxHyp S V vOk) (hR : RefWF S) (hv32 : vOk &&& 0xFFFFFF
         (fun h k0 => ⟨rfl, fun y hy => Or.inl (movePos_ids_sub k0 cur q y hy)⟩) y hy with a | a
       · exact a
       · exact a.elim
-  · exact absurd ⟨k, cx, cp, hr.locx, hr.locp, (mvName_fail S _ _ _ _).mp hf⟩ (nameFail_impossible S vOk w hw p x)
   · rw [he] at hw' ⊢
     obtain ⟨m, hm1, hm2, _, hcx⟩ := locate_chain w x k cx hr.locx
     obtain ⟨hox, _⟩ := chain_occ x m.rootItems cx hcx
